@@ -5271,7 +5271,8 @@ bool SoPlexBase<R>::multBasis(R* vec, bool unscale)
    {
       int colbasisdim = numRows();
 
-      DSVectorBase<R> y(colbasisdim);
+      // accumulate the product in a dense vector: several basis columns may contribute to the same row
+      VectorBase<R> y(colbasisdim);
 
       y.clear();
 
@@ -5304,7 +5305,7 @@ bool SoPlexBase<R>::multBasis(R* vec, bool unscale)
                assert(index < numRows());
                assert(!_solver.isRowBasic(index));
 
-               y.add(x[i] * UnitVectorBase<R>(index));
+               y[index] += x[i];
             }
             // r corresponds to a column vector
             else
@@ -5317,10 +5318,10 @@ bool SoPlexBase<R>::multBasis(R* vec, bool unscale)
                {
                   DSVectorBase<R> col;
                   _solver.getColVectorUnscaled(index, col);
-                  y.add(x[i] * col);
+                  y.multAdd(x[i], col);
                }
-
-               y.add(x[i] * _solver.colVector(index));
+               else
+                  y.multAdd(x[i], _solver.colVector(index));
             }
          }
       }
